@@ -7,7 +7,10 @@
  * correspondence of the extracted Coq kernels (Kernels/LumpedConstituent.v,
    Decay.v, InstreamFineSediment.v, InstreamCoarseSediment.v,
    InstreamParticulateNutrient.v, InstreamDissolvedNutrient.v, SedimentTrapping.v,
-   TrapAll.v, DissolvedDecay.v) with the Go models, run through sim.Catalog;
+   TrapAll.v, DissolvedDecay.v) with the nine Go models, run through sim.Catalog
+   (bit-exact where only + - * / min max and comparisons occur; rtol 1e-9 where
+   math.Pow / math.Exp occur); the decay-enabled paths of StorageDissolvedDecay and
+   InstreamDissolvedNutrientDecay are compared only (C12 does not speak about them);
  * the mass-balance oracle evaluated on the IMPLEMENTATION's outputs: the state
    after every step is obtained by running the implementation on every prefix of
    the series, which gives a per-step residual
@@ -501,6 +504,22 @@ def binaries(c=None):
     return os.path.join(HARNESS, 'bin', 'owrun'), os.path.join(OCAML, 'driver')
 
 
+class _ReplayCtx:
+    """what oracle_case needs from a Check, without touching out/ or evidence/"""
+    def __init__(self):
+        self.known = load_known('C12')
+        self.known_hits = {}
+        self.violations = []
+
+    def violation(self, name, obj, key=None, no_input=False):
+        for k in self.known:
+            if key is not None and k['key'] == key:
+                self.known_hits[k['id']] = k['text']
+                return False
+        self.violations.append(obj)
+        return True
+
+
 def replay(path):
     """re-run one recorded case on the implementation and on the model and re-evaluate the oracle"""
     import json
@@ -518,7 +537,7 @@ def replay(path):
     res = run_lines(impl_bin, lines, env=GOENV)
     lm = run_lines(model_bin, lines[:1], crash_token='MODELCRASH')[0]
     print('case :', lines[0]); print('impl :', res[0]); print('model:', lm)
-    c = Check('C12')
+    c = _ReplayCtx()
     ri, rm = parse_kresult(res[0]), parse_kresult(lm)
     diff = agree(cs, ri, rm)
     if diff:
@@ -527,8 +546,8 @@ def replay(path):
     good = oracle_case(c, Oracle(c), 0, cs, ri, traj)
     for kid, text in sorted(c.known_hits.items()):
         print('KNOWN-FINDING: property=C12 %s: %s' % (kid, text))
-    for pth, _ in c.violations:
-        print('oracle failure recorded in', pth)
+    for obj in c.violations:
+        print('oracle failure:', obj.get('kind'), 'step', obj.get('step'), 'value', obj.get('value'), obj.get('impl', ''))
     print('oracle:', 'holds' if (good and not c.known_hits) else ('known finding' if good else 'VIOLATED'))
     sys.exit(0 if (good and not diff) else 1)
 
@@ -538,7 +557,13 @@ def main():
         if a == '--replay' and i + 1 < len(sys.argv):
             replay(sys.argv[i + 1])
     c = Check('C12')
-    impl_bin, model_bin = binaries(c)
+    try:
+        impl_bin, model_bin = binaries(c)
+    except BuildError as e:
+        # the extracted model or the harness against /repo's working tree does not build: nothing can be compared
+        log('BUILD BROKEN:', e.what); log(e.output[-2000:])
+        c.violation('build_broken.json', {'kind': 'build-broken', 'what': e.what, 'output_tail': e.output[-3000:]}, no_input=True)
+        c.finish(assumptions=['build of the model driver or of the Go harness failed; no case was run'])
     rng = c.rng
     quick = c.tier == 'quick'
     N = 400 if quick else 2500
@@ -587,12 +612,24 @@ def main():
             c.corr_broken.append({'model': cs.model, 'diff': diff, 'line': lines[i]})
             log('CORRESPONDENCE MISMATCH', cs.model, diff)
         if cs.meta.get('decay'):
-            continue       # decay-enabled variants: correspondence only (outside the statement of C12)
+            # decay-enabled variants: correspondence only (outside the statement of C12); record which loop branch ran
+            if ri[0] == 'OK' and cs.model == 'InstreamDissolvedNutrientDecay':
+                for t in range(cs.n):
+                    orc.hit(cs.model, 'decay:travel-time>dt' if ri[1][0][t] != 0.0 or ri[1][3][t] != 0.0 else
+                            ('decay:no-water-or-fast' if ri[1][1][t] == cs.states[0] + cs.inputs[0][t] + cs.inputs[1][t] else 'decay:travel-time<=dt'))
+            if ri[0] == 'OK' and cs.model == 'StorageDissolvedDecay':
+                for t in range(cs.n):
+                    orc.hit(cs.model, 'decay:below-bankfull' if cs.inputs[2][t] < cs.params[3] else 'decay:flood')
+            continue
         traj = [trajs.get(i, {}).get(t) for t in range(1, cs.n + 1)]
         good = oracle_case(c, orc, i, cs, ri, traj)
         if i % 173 == 0 and ri[0] == 'OK':
             c.sample({'model': cs.model, 'regime': cs.meta.get('regime'), 'steps': cs.n, 'dt': cs.dt,
-                      'final_states': ri[2], 'oracle_ok': good})
+                      'params': cs.params, 'initial_states': cs.states,
+                      'inputs_first_8_steps': [r[:8] for r in cs.inputs],
+                      'impl_outputs_first_8_steps': [r[:8] for r in ri[1]],
+                      'impl_states_after_each_of_first_8_steps': traj[:8],
+                      'final_states': ri[2], 'oracle_ok': good}, limit=6)
     c.cov['rule'] = ('per model: non-negative load series (zero/constant/random/pulse/sparse/large) x hydrology regimes '
                      '(steady, dry, near-empty around MINIMUM_VOLUME, exactly-at-threshold, intermittent, pulse, storm, zero-flow pond, '
                      'zero-storage river) x time steps in [1,86400] x random initial stored masses x parameters over their documented / '
@@ -601,7 +638,18 @@ def main():
                      'each case is run through sim.Catalog and through the extracted Coq kernel (bit-exact, or rtol 1e-9 where pow/exp occur) '
                      'and the implementation is re-run on every prefix to observe the state after each step; '
                      'non-trivial = at least one positive load in the first two input series')
-    c.finish(extra_cov={'per_model': per_model, 'branch_hits': dict(sorted(orc.branches.items())),
+    chk = None
+    if not quick and not os.environ.get('C12_BIN_DIR'):
+        # thorough tier: independent re-check of the compiled proofs of the whole dependency closure
+        try:
+            sh('timeout 2400 coqchk -silent -o -Q . OW OW.Properties.C12', cwd=COQ, timeout=2500)
+            chk = 'coqchk -silent -o -Q . OW OW.Properties.C12 : passed'
+        except BuildError as e:
+            chk = 'coqchk FAILED'
+            if not c.proof_broken:
+                c.proof_broken = ('coqchk OW.Properties.C12', e.output[-3000:])
+    not_reproduced = sorted(k['id'] for k in c.known if k['id'] not in c.known_hits)
+    c.finish(extra_cov={'coqchk': chk, 'known_findings_not_reproduced_this_run': not_reproduced, 'per_model': per_model, 'branch_hits': dict(sorted(orc.branches.items())),
                         'prefix_runs': len(plines), 'exhaustive': False,
                         'oracle': 'per-step and cumulative mass budget (rtol 1e-9), loss only when working volume < 0.01, '
                                   'non-negative downstream loads and stores, remobilisation <= channel store'},
